@@ -143,7 +143,11 @@ def _project(force, nodes, labels, opts, U, lattice, exact):
 def run_instance(inst, U, lattice):
     labels = [tuple(x) for x in inst["labels"]]
     nodes = [Node(float(a) if not lattice else _num(a), _num(w), {"id": i + 1}) for i, (a, w) in enumerate(labels)]
-    f = Force(dict(inst["opts"]))
+    # a caller who wants a documented default usually does not pass the key at all: default-valued keys are dropped on a
+    # per-instance coin (the record still carries the full configuration that was asked for)
+    coin = random.Random(json.dumps(inst, sort_keys=True, default=str))
+    passed = {k: v for k, v in inst["opts"].items() if not (k in DOC_DEFAULTS and v == DOC_DEFAULTS[k] and coin.random() < 0.5)}
+    f = Force(passed if passed or coin.random() < 0.5 else None)
     f.nodes(list(nodes))       # (the engine may sort the list it is given in place; keep ours in label order)
     try:
         with guard.limit(900):
@@ -372,7 +376,7 @@ def gen_bounds(rng):
 def gen_budget(rng):
     """Label sets whose required width sits exactly on, or half a unit around, a NON-INTEGER layer budget (dyadic density, so
     that density * layerWidth is exact): 'fits the budget' must mean <=, not < floor."""
-    dens = rng.choice([0.5, 0.75])
+    dens = rng.choice([0.5, 0.75, 0.85])
     lw = rng.choice([50, 51, 75, 101, 30])
     if dens == 0.75 and (3 * lw) % 4 == 0:
         lw += 2
@@ -382,6 +386,12 @@ def gen_budget(rng):
     ns = rng.choice([0, 1, 3, 0.5])
     n = rng.randint(3, 8)
     target = budget + rng.choice([0, 0, -0.5, 0.5, -1])
+    if dens == 0.85:
+        # the documented default density (often not passed at all): not dyadic, so the required width stays strictly off the
+        # budget (17/20 of a layer width that is a multiple of 20)
+        lw = rng.choice([40, 60, 100, 120])
+        budget = 17 * lw // 20
+        target = budget + rng.choice([-0.5, -1, -3, 0.5, 1])
     target = round(target * 2) / 2.0        # required widths are multiples of 0.5
     rest = target - (n - 1) * ns
     if rest < n * 0.5:
